@@ -7,12 +7,22 @@
 //! theorems' hypotheses (digit tails, absent separators before a 1-digit day, space-padded days after
 //! greedy blanks) so that the `_full_false` witnesses' neighbourhood is exercised too.
 //! Requests are `rgx m <row> <hex>` (the `rgx` component's op: same driver, `drv_regex`), replies as there.
+//!
+//! Rows covered by the AUTOMATIC catalogues (`S4V.Props.RegexCapture3*`; the list `rgxr_auto_rows.txt` is
+//! written by tools/mk_regexcap3.py) are rendered from the row's own AST (`rgx_rows.txt`) the way the Lean
+//! catalogue enumerates it: per item one alternative / one repetition count (all bounded counts; min, min+1
+//! and sometimes more for unbounded ones) / one ASCII member of every class (with the boundaries of every
+//! range) — the head `^` / `(^|x)` and the final `([class]|$)` are not rendered; a tail follows. Renderings
+//! OUTSIDE the catalogues (space-padded days after greedy blanks, 1-digit days before digits, prefixes before
+//! `(^|x)` heads, extra repetitions) occur too.
 use std::io::Write;
 
+use crate::c_rgx::{load_rows, Ast};
 use crate::util::{hex, Opts, Rng};
 use regex::bytes::Regex;
 use s4lib::data::datetime::DATETIME_PARSE_DATAS;
 
+/// rows with hand-written renderers (the rows of `rgxr_auto_rows.txt` are rendered from their AST: `render_auto`)
 pub const ROWS: &[usize] = &[79, 75, 76, 77, 78, 15, 12, 19, 23, 38, 100, 94, 58];
 
 fn answer(re: &Regex, data: &[u8]) -> String {
@@ -192,18 +202,99 @@ fn render(row: usize, r: &mut Rng) -> Vec<u8> {
     v
 }
 
+const AUTO_ROWS: &str = include_str!("rgxr_auto_rows.txt");
+
+pub fn auto_rows() -> Vec<usize> {
+    AUTO_ROWS.split_whitespace().map(|x| x.parse().unwrap()).collect()
+}
+
+fn is_head(a: &Ast) -> bool {
+    match a {
+        Ast::Bol => true,
+        Ast::Grp(x) => matches!(&**x, Ast::Alt(v) if v.iter().any(|y| matches!(y, Ast::Bol))),
+        _ => false,
+    }
+}
+
+fn is_end_group(a: &Ast) -> bool {
+    match a {
+        Ast::Grp(x) => matches!(&**x, Ast::Alt(v) if v.len() == 2 && matches!(v[0], Ast::Cls(_)) && matches!(v[1], Ast::Eol)),
+        _ => false,
+    }
+}
+
+/// one rendering of an item, the way `symEntriesOf` enumerates it (ASCII members only)
+fn render_item(a: &Ast, r: &mut Rng, out: &mut Vec<u8>) {
+    match a {
+        Ast::Eps | Ast::Bol | Ast::Eol => {}
+        Ast::Lit(b) => out.extend_from_slice(b),
+        Ast::Cls(rs) => {
+            let ascii: Vec<(u32, u32)> = rs.iter().filter(|&&(lo, _)| lo < 128).map(|&(lo, hi)| (lo, hi.min(127))).collect();
+            if ascii.is_empty() {
+                return;
+            }
+            let (lo, hi) = ascii[r.below(ascii.len())];
+            let c = match r.below(4) { 0 => lo, 1 => hi, _ => lo + r.below((hi - lo + 1) as usize) as u32 };
+            // mostly printable
+            let c = if c < 32 && c != 9 && hi >= 32 && !r.chance(1, 8) { 32.max(lo) } else { c };
+            out.push(c as u8);
+        }
+        Ast::Cat(v) => v.iter().for_each(|x| render_item(x, r, out)),
+        Ast::Alt(v) => render_item(&v[r.below(v.len())], r, out),
+        Ast::Rep(lo, hi, x) => {
+            let n = match hi {
+                Some(h) => lo + r.below(h - lo + 1),
+                None => if r.chance(1, 10) { lo + 2 + r.below(3) } else { lo + r.below(2) },
+            };
+            for _ in 0..n {
+                render_item(x, r, out);
+            }
+        }
+        Ast::Grp(x) => render_item(x, r, out),
+    }
+}
+
+const PREFIX: &[&[u8]] = &[b" ", b"[", b": ", b"x", b"7", b"host ", b"\t", "é".as_bytes(), b"\xff"];
+
+fn render_auto(ast: &Ast, r: &mut Rng) -> Vec<u8> {
+    let items: Vec<&Ast> = match ast { Ast::Cat(v) => v.iter().collect(), x => vec![x] };
+    let mut out = vec![];
+    let first = if is_head(items[0]) { 1 } else { 0 };
+    if first == 1 && !matches!(items[0], Ast::Bol) && r.chance(1, 6) {
+        out.extend_from_slice(PREFIX[r.below(PREFIX.len())]);
+    }
+    let last = if is_end_group(items[items.len() - 1]) { items.len() - 1 } else { items.len() };
+    for it in &items[first..last] {
+        render_item(it, r, &mut out);
+    }
+    out.extend_from_slice(TAILS[r.below(TAILS.len())]);
+    out
+}
+
 pub fn replay_line(req: &str) -> String {
     crate::c_rgx::replay_line(req)
 }
 
 pub fn run(o: &Opts, out: &mut dyn Write) {
     let mut r = Rng::new(o.seed ^ 0x7267_7872);
-    let per_row = (o.n / ROWS.len()).max(50);
+    let auto = auto_rows();
+    let per_row = (o.n / (ROWS.len() + auto.len())).max(50);
     for &row in ROWS {
         let re = Regex::new(DATETIME_PARSE_DATAS[row].regex_pattern).unwrap();
         writeln!(out, "# row {} x {}", row, per_row).unwrap();
         for _ in 0..per_row {
             let data = render(row, &mut r);
+            writeln!(out, "rgx m {} {}\t{}", row, hex(&data), answer(&re, &data)).unwrap();
+        }
+    }
+    let rows = load_rows();
+    assert_eq!(rows.len(), DATETIME_PARSE_DATAS.len(), "rgx_rows.txt is stale: regenerate with gen/s4gen.py Regex");
+    for &row in &auto {
+        let re = Regex::new(DATETIME_PARSE_DATAS[row].regex_pattern).unwrap();
+        writeln!(out, "# row {} x {} (auto)", row, per_row).unwrap();
+        assert_eq!(rows[row].idx, row);
+        for _ in 0..per_row {
+            let data = render_auto(&rows[row].ast, &mut r);
             writeln!(out, "rgx m {} {}\t{}", row, hex(&data), answer(&re, &data)).unwrap();
         }
     }
